@@ -44,6 +44,7 @@ class Evt:
         self.met = d["met"]
         self.run = d["run"]
         self._nums = S(d["nums"])
+        self._groups = S(S(g) for g in d.get("groups", []))
         self._jets = S(Jet(j, S) for j in d["jets"])
 
     def jets(self):
@@ -51,6 +52,9 @@ class Evt:
 
     def nums(self):
         return self._nums
+
+    def groups(self):
+        return self._groups
 
 
 def build(data, lazy=True):
